@@ -431,7 +431,7 @@ def _stack(ctx, root, asgi):
                 resp = falcon.Response()
                 try:
                     responder(req, resp, **params)
-                except falcon.HTTPError as e:
+                except Exception as e:  # noqa  (anything but an HTTPError is an observation the oracle rejects, not a harness error)
                     exc = e
             if resp.stream is not None and hasattr(resp.stream, 'close'):
                 resp.stream.close()
